@@ -279,7 +279,11 @@ impl World {
             results,
             raw_results: None,
         });
-        for (n, _) in &out.probes {
+        for (n, d) in &out.probes {
+            // unvisited values with nothing added below the cursor are not finding F16
+            if n == "stream_fold_unvisited_values" && d.ends_with("added_below_cursor=0") {
+                continue;
+            }
             self.shadow_probes.insert(n.clone());
         }
         out
@@ -482,9 +486,9 @@ impl World {
                     eprintln!("    -> code {} {} next {:?} reqs {:?}\n    data {}", out.code, out.msg, out.next, out.reqs.keys().collect::<Vec<_>>(), interp::data_json(&interp::dec(&out.data)));
                 }
                 *self.stats.codes.entry(out.code.to_string()).or_default() += 1;
-                for (n, _) in &out.probes {
+                for (n, d) in &out.probes {
                     *self.stats.probes.entry(n.clone()).or_default() += 1;
-                    if n == "stream_fold_unvisited_values" {
+                    if n == "stream_fold_unvisited_values" && !d.ends_with("added_below_cursor=0") {
                         taint.insert("F16".into());
                     }
                     if n == "fold_end_leftover_lore" {
